@@ -673,7 +673,9 @@ def gen_class_body(rng, forest, cls, idx_parent, names, hostile=None,
     # overrides of inherited methods
     for ln, e in pv.meths.items():
         r = rng.random()
-        if r < 0.3 or (do_change and not changed and r < 0.7):
+        fewer = hostile == 'fewer-params' and not changed and \
+            len(e.params) >= 1
+        if r < 0.3 or (do_change and not changed and r < 0.7) or fewer:
             d = e.decl
             quals, ch = _gen_quals(rng, flav, e.quals, _any_scope,
                                    hostile_do_change=do_change and
@@ -690,6 +692,10 @@ def gen_class_body(rng, forest, cls, idx_parent, names, hostile=None,
                                         x.decl.array_size, xq))
             if rng.random() < 0.3:
                 rng.shuffle(params)
+            if fewer:
+                # the overriding method declares one parameter less
+                params.pop(rng.randrange(len(params)))
+                changed = True
             cls.meths.append(MethDecl(recase(rng, d.name, 0.5),
                                       d.return_type, params, quals))
     # new methods
@@ -801,7 +807,10 @@ def add_assoc_classes(rng, f, names):
 
 HOSTILE_KINDS = [('do-change', 'reject'), ('no-override', 'either'),
                  ('type-change', 'either'), ('undeclared-qual', 'reject'),
-                 ('dup-class', 'reject'), ('missing-super', 'reject')]
+                 ('dup-class', 'reject'), ('missing-super', 'reject'),
+                 # accepted or refused; removed again when accepted (what
+                 # the class then exposes is not stated)
+                 ('fewer-params', 'either-then-delete')]
 
 
 def gen_hostile_class(rng, f, live):
@@ -844,6 +853,8 @@ def gen_hostile_class(rng, f, live):
             ok = any(q.ts and not q.ov and q.lname != 'key'
                      for e in list(v.props.values()) + list(v.meths.values())
                      for q in e.quals.values())
+        elif kind == 'fewer-params':
+            ok = any(e.params for e in v.meths.values())
         else:
             ok = any('key' not in e.quals for e in v.props.values())
         if ok and f.classes[j].depth < 5:
